@@ -26,9 +26,25 @@ Fold(steps, i, last) ==     \* last: thread -> text of its most recent failure
        ELSE IF s.text # last[s.t]
             THEN "thread " \o ToString(s.t) \o " read '" \o s.text \o "' but its most recent failure is '" \o last[s.t] \o "'"
             ELSE Fold(steps, i + 1, last)
+\* The same judgement without recursion, for schedules with tens of thousands of steps (TLC's cost per recursive
+\* call grows with the depth of the recursion): step i is judged on its own; the most recent failure of the reading
+\* thread is the step just before it, or else found among all earlier steps.
+BadStep(steps, i) ==
+  LET s == steps[i] IN
+  IF s.a = "X" THEN "a thread died"
+  ELSE IF s.a = "F" THEN (IF s.ret # 0 - 1 THEN "a call that must fail returned " \o ToString(s.ret) ELSE "")
+  ELSE LET mine == IF i > 1 /\ steps[i - 1].t = s.t /\ steps[i - 1].a = "F" THEN steps[i - 1].text
+                   ELSE LET js == {j \in 1..(i - 1) : steps[j].t = s.t /\ steps[j].a = "F"} IN
+                        IF js = {} THEN "<none>" ELSE steps[CHOOSE j \in js : \A k \in js : k <= j].text IN
+       IF s.text # mine
+       THEN "thread " \o ToString(s.t) \o " read '" \o s.text \o "' but its most recent failure is '" \o mine \o "'"
+       ELSE ""
+Flat(steps) ==
+  IF \E i \in 1..Len(steps) : BadStep(steps, i) # "" THEN BadStep(steps, CHOOSE i \in 1..Len(steps) : BadStep(steps, i) # "") ELSE ""
 C16Why(e) ==
   IF e.k \in {"hang", "abort"} THEN "the library " \o e.k \o "s"
   ELSE IF Len(e.steps) # Len(e.order) THEN "schedule not completed"
+  ELSE IF Len(e.steps) > 10000 THEN Flat(e.steps)
   ELSE Fold(e.steps, 1, [t \in 1..e.n |-> "<none>"])
 Interleaved(e) == \E i \in 1..(Len(e.order) - 2) : e.order[i] # e.order[i + 1] /\ e.order[i + 1] # e.order[i + 2]
 C16(e) == LET w == C16Why(e) IN
